@@ -29,6 +29,18 @@ fn differential(ctx: &mut Ctx, b: &[u8], what: &str) -> bool {
             return false;
         }
     };
+    if b.len() < 5000 {
+        let m = Misaligned::new(b);
+        let same = match (guard(|| Chunk::try_from(m.slice()).ok()), &l) {
+            (Ok(Some(a)), Some(b2)) => format!("{:?}", a) == format!("{:?}", b2),
+            (Ok(None), None) => true,
+            _ => false,
+        };
+        if !same {
+            ctx.violation("decoding depends on the alignment of the input slice", what.to_string(), json!({"bytes": hex(b)}));
+            return false;
+        }
+    }
     match (&l, &r) {
         (Some(d), Some(r)) => {
             ctx.count("accepted by both");
@@ -76,6 +88,12 @@ fn flip(x: &mut [u8], bit: usize) {
 
 fn run(ctx: &mut Ctx) {
     assert_eq!(enc::crc32c(b"123456789"), 0xE3069283, "CRC-32C self-test");
+    for t in [0u32, 0xFFFF_FFFF, 0x1234_5678] {
+        let s = enc::crc32c_forge_suffix(b"forge", t);
+        assert_eq!(enc::crc32c(&[&b"forge"[..], &s[..]].concat()), t, "CRC forging self-test");
+        let m = enc::crc32c_forge_middle(b"head", b"tail-bytes", t);
+        assert_eq!(enc::crc32c(&[&b"head"[..], &m[..], &b"tail-bytes"[..]].concat()), t, "CRC middle forging self-test");
+    }
     let thorough = !ctx.quick();
     // ---- well-formed and near-valid chunks
     let mut plens: Vec<usize> = (1..=64).collect();
@@ -284,6 +302,67 @@ fn run(ctx: &mut Ctx) {
                     }
                 }
                 corrupted(ctx, &b, &x, "bursts (2..32 bits) decoded", || format!("off {} len {} plen {}", off, l, plen));
+            }
+        }
+    });
+    // ---- chunks whose *correct* stored CRC words have special values (0x00000000, 0xFFFFFFFF, ...): a sentinel in
+    // the comparison code would exempt them. Full single-bit / pattern campaign on each.
+    ctx.cases("special-crc-values", 24, |ctx, i, rng| {
+        let target_word = [0u32, 0xFFFF_FFFF, 1, 0x8000_0000, 0x0000_FFFF, 0xFFFF_0000][(i % 6) as usize];
+        let which = (i / 6) % 2; // 0: payload word, 1: header word
+        let plen = [4usize, 8, 32, 708][(i / 12) as usize % 4 + if i % 2 == 0 { 0 } else { 0 }];
+        let board = rng.pick(&PWB_BOARDS).1;
+        let mut c = enc::Chunk { device_id: pwb_device_id(&board), packet_sequence: rng.next() as u32, channel_sequence: rng.next() as u16, channel_id: rng.below(4) as u8, flags: 1, chunk_id: 0, payload: rng.bytes(plen) };
+        if which == 0 {
+            // payload (multiple of 4, no padding) ending in 4 forged bytes: stored word = !crc = target_word
+            let n = c.payload.len();
+            let suffix = enc::crc32c_forge_suffix(&c.payload[..n - 4], !target_word);
+            c.payload[n - 4..].copy_from_slice(&suffix);
+        } else {
+            // bytes 4..8 (packet_sequence) are free: forge them so that the stored header word = !crc(header) = target
+            let h = c.encode()[..16].to_vec();
+            let m = enc::crc32c_forge_middle(&h[..4], &h[8..16], !target_word);
+            c.packet_sequence = u32::from_le_bytes(m);
+        }
+        let b = c.encode();
+        if !differential(ctx, &b, "special stored crc value") {
+            ctx.violation("valid chunk not accepted", format!("stored crc word target {:#x}", target_word), json!({"bytes": hex(&b)}));
+            return;
+        }
+        let n = b.len();
+        let stored = if which == 0 { u32::from_le_bytes(b[n - 4..].try_into().unwrap()) } else { u32::from_le_bytes(b[16..20].try_into().unwrap()) };
+        ctx.count(&format!("chunks with a special stored crc word ({})", if stored == target_word { "exact" } else { "low 16 bits" }));
+        let nbits = n * 8;
+        for bit in 0..nbits {
+            let mut x = b.clone();
+            flip(&mut x, bit);
+            corrupted(ctx, &b, &x, "single-bit flips decoded", || format!("bit {} (stored crc word {:#010x})", bit, stored));
+        }
+        for off in (0..nbits).step_by(8) {
+            for (l, pat) in [(8usize, 0xFFu32), (16, 0xFFFF), (32, 0xFFFF_FFFF), (32, 0x8000_0001)] {
+                if off + l <= nbits {
+                    let mut x = b.clone();
+                    for k in 0..l {
+                        if pat >> k & 1 == 1 {
+                            flip(&mut x, off + k);
+                        }
+                    }
+                    corrupted(ctx, &b, &x, "pattern bursts (all-ones / alternating) decoded", || format!("off {} len {}", off, l));
+                }
+            }
+        }
+    });
+    // ---- device ids assembled from the halves / bytes of two different known boards (CRC re-fixed)
+    ctx.cases("mixed-device-ids", 71, |ctx, i, rng| {
+        let a = PWB_BOARDS[i as usize].1;
+        for (_, b2) in PWB_BOARDS.iter() {
+            if *b2 == a {
+                continue;
+            }
+            for mask in [0x0000_FFFFu32, 0xFFFF_0000, 0x00FF_00FF, 0xFF00_FF00, 0x0000_00FF, 0xFFFF_FF00] {
+                let dev = (pwb_device_id(&a) & mask) | (pwb_device_id(b2) & !mask);
+                let c = enc::Chunk { device_id: dev, packet_sequence: 1, channel_sequence: 2, channel_id: 1, flags: 0, chunk_id: 3, payload: rng.bytes(5) };
+                differential(ctx, &c.encode(), "device id mixed from two boards");
             }
         }
     });
